@@ -104,6 +104,25 @@ pub fn tlc_tagged_json(path: &str, tag: &str) -> Vec<serde_json::Value> {
     out
 }
 
+/// streaming variant: one callback per tagged line (a 1 GB dump must not be held as parsed values)
+pub fn tlc_tagged_json_each(path: &str, tag: &str, mut f: impl FnMut(serde_json::Value)) {
+    use std::io::BufRead;
+    let file = std::fs::File::open(path).unwrap_or_else(|e| {
+        eprintln!("cannot open {path}: {e}");
+        std::process::exit(2)
+    });
+    let prefix = format!("<<\"{tag}\", ");
+    for line in std::io::BufReader::new(file).lines() {
+        let line = line.unwrap();
+        if let Some(rest) = line.strip_prefix(&prefix) {
+            if let Some(q) = rest.strip_suffix(">>") {
+                let inner: String = serde_json::from_str(q).expect("TLC string literal");
+                f(serde_json::from_str(&inner).expect("json payload"));
+            }
+        }
+    }
+}
+
 pub fn write_json(path: &str, v: &serde_json::Value) {
     std::fs::write(path, serde_json::to_vec_pretty(v).unwrap()).unwrap();
 }
